@@ -41,6 +41,8 @@ type call struct {
 	hasErr bool
 	errn   int
 	of     int
+	keyGiven  bool // k= present (the key itself may be nil: contract violation)
+	nilLoader bool // loader=nil (contract violation)
 }
 
 func parseKey(s string) (any, bool) {
@@ -225,11 +227,25 @@ func parseScen(line string) (*scen, string) {
 		for _, a := range w[4:] {
 			switch {
 			case strings.HasPrefix(a, "k="):
+				c.keyGiven = true
+				if a[2:] == "nil" { // contract violation: nil key
+					break
+				}
+				if strings.HasPrefix(a[2:], "f64:") { // contract violation: unsupported key type
+					f, err := strconv.ParseFloat(a[6:], 64)
+					if err != nil {
+						return nil, "bad-script key"
+					}
+					c.key = f
+					break
+				}
 				k, ok := parseKey(a[2:])
 				if !ok {
 					return nil, "bad-script key"
 				}
 				c.key = k
+			case a == "loader=nil": // contract violation: nil loader
+				c.nilLoader = true
 			case strings.HasPrefix(a, "loader="):
 				parseResParts(c, strings.Split(a[7:], ","))
 			case strings.HasPrefix(a, "of="):
@@ -244,7 +260,7 @@ func parseScen(line string) (*scen, string) {
 		}
 		switch c.kind {
 		case "load", "get2", "set":
-			if c.key == nil {
+			if !c.keyGiven {
 				return nil, "bad-script nokey"
 			}
 		case "fget":
@@ -257,7 +273,7 @@ func parseScen(line string) (*scen, string) {
 	for _, c := range sc.calls {
 		if c.kind == "fget" {
 			o := seen[c.of]
-			if o == nil || o.kind != "load" || o.at > c.at {
+			if o == nil || o.kind != "load" || o.at > c.at || o.nilLoader || o.key == nil {
 				return nil, "bad-script fget-target"
 			}
 		}
@@ -349,8 +365,30 @@ func runScenario(line string) string {
 			logf("call c%d", c.cid)
 			mu.Unlock()
 			atomic.StoreInt32(state[c.cid], 1)
+			// the documented assertion panics (nil key, nil loader, unsupported key type) are recovered by the caller,
+			// who goes on using the cache
+			defer func() {
+				if r := recover(); r != nil {
+					mu.Lock()
+					logf("ret c%d panic", c.cid)
+					mu.Unlock()
+					atomic.StoreInt32(state[c.cid], 2)
+				}
+			}()
 			switch c.kind {
 			case "load":
+				if c.nilLoader {
+					f := cache.Load(c.key, nil)
+					mu.Lock()
+					n, ok := futNo[f]
+					if !ok {
+						n = len(futNo)
+						futNo[f] = n
+					}
+					logf("ret c%d fut#%d", c.cid, n)
+					mu.Unlock()
+					break
+				}
 				f := cache.Load(c.key, func(key any) (any, error) {
 					mu.Lock()
 					n := invocations
